@@ -139,4 +139,15 @@ def specTorrent {V : Type} (ofStr : Str → V) (ofInt : Int → V) (ih : Str) (f
       | none => some (hexLower40 (hashVal ih)),
     trackers := f.tr, webseeds := f.ws }
 
+/-- What a history of `torrent()` calls, caller's edits of the results and changes of the magnet's
+    fields must show: every `torrent()` is the specified torrent for the fields held **then** and the
+    metadata adopted by `get_info()` — whatever the caller did to earlier results. -/
+def specRunT {V : Type} (ofStr : Str → V) (ofInt : Int → V) (ih : Str) (fields : Fields)
+    (adopted : Option (Info V)) : List (TOp V) → List (Except MErr (TorrentOut V))
+  | [] => []
+  | .torrent :: ops =>
+    torrentOf ofStr ofInt ih fields adopted :: specRunT ofStr ofInt ih fields adopted ops
+  | .edit _ _ :: ops => specRunT ofStr ofInt ih fields adopted ops
+  | .setFields f :: ops => specRunT ofStr ofInt ih f adopted ops
+
 end Torf.Magnet
